@@ -8,7 +8,8 @@ from vlib import Leg
 def gen_consist(rng, tier):
     out = []
     for _ in range(c05.n_programs(tier, quick=200)):
-        ws = c05.gen_twin_workspace(rng) if rng.random() < 0.08 else c05.gen_workspace(rng)
+        k = rng.random()
+        ws = c05.gen_twin_workspace(rng) if k < 0.08 else (c05.gen_returned_local_workspace(rng) if k < 0.12 else c05.gen_workspace(rng))
         steps = c05.cursor_steps(["define", "refs", "highlight", "hover"], ws, rng)
         if rng.random() < 0.3:
             fn, text, ids = ws[0]
